@@ -73,6 +73,12 @@ int main(int argc,char** argv){
       err=std::max(err,maxdiff(toMat(d,comps(back)),MA));
       err=std::max(err,maxdiff(toMat(d,comps(A.Rotate(Um.get()))),toMat(d,comps(B1))));
       err=std::max(err,maxdiff(toMat(d,comps(A.UDaggerTransform(Um.get()))),toMat(d,comps(B0))));
+      { // WeightedRotation: W^dagger ( Y (V A V^dagger) Y ) W with V = W = the mixing matrix here; both overloads agree
+        std::vector<double> y(n); for(int i=0;i<n;i++) y[i]=U(g); SU_vector Y(y); Mat MY=toMat(d,y);
+        SU_vector W1=A; W1.WeightedRotation(P,Y,P); SU_vector W2=A; W2.WeightedRotation(Um.get(),Y,Um.get());
+        Mat E=mul(dag(MU),mul(mul(MY,mul(mul(MU,mul(MA,dag(MU))),MY)),MU));
+        long double sc=std::max<long double>(1,norm(E));
+        err=std::max(err,maxdiff(toMat(d,comps(W1)),E)/sc); err=std::max(err,maxdiff(toMat(d,comps(W2)),E)/sc); }
     }
     if(fam=="factory"){
       for(int k=0;k<d;k++){ Mat E=zeros(d); E[k][k]=1; err=std::max(err,maxdiff(toMat(d,comps(SU_vector::Projector(d,k))),E)); }
